@@ -343,6 +343,8 @@ class SReal:
         return SReal(e)
 
     def _bin(self, o, f):
+        if isinstance(o, float) and o != o:  # IEEE: any finite value (+,-,*) nan is nan
+            return o
         oe = _lift(o)
         if oe is NotImplemented:
             return NotImplemented
